@@ -326,3 +326,7 @@ for _p in ("C05", "C08", "C20"):
     PROPS[_p]["drivers"] = [{"name": "cache", "n_quick": 250, "n_thorough": 3000}] + PROPS[_p]["drivers"]
     PROPS[_p]["model_files"] = list(dict.fromkeys(PROPS[_p]["model_files"] + ["corr/CacheCorr.v"]))
     PROPS[_p]["rule"] = "cache component: " + PROPS["C09"]["rule"] + " || engine level: " + PROPS[_p]["rule"]
+
+PROPS["C18"]["prop_files"] = ["props/C18.v", "props/C18i.v", "props/C18res.v"]
+PROPS["C18"]["files"] = list(dict.fromkeys(PROPS["C18"]["files"] + ["proofs/DbProofs.v", "proofs/ResProofs.v", "props/C18res.v"]))
+PROPS["C18"]["model_files"] = list(dict.fromkeys(PROPS["C18"]["model_files"] + ["model/DbKey.v", "model/DbModel.v", "model/ResModel.v"]))
